@@ -529,4 +529,212 @@ theorem dispatch_cong (st : Static) (a D : Defs) (e : StEq a D) (ctx : RCtx) (hf
     subst h1; subst h2
     rw [dispatch_id st D D' ctx n k r' hf hok hd]
 
+/-! ## the two passes, node by node -/
+
+theorem passNode_inv (st : Static) (first last : Bool) (a a' : PassSt) (n : AstNode) (k : Nat)
+    (h : passNode st first last a n k = .ok a') :
+    ∃ it s r, visit a.defs.banks a.it (nodeItem st a.defs n k) = .ok it ∧
+      dispatch st a.defs ⟨first, last, stepCtx st a.symCtx n, it.bank, it.pos⟩ n k = .ok (a'.defs, s, r) ∧
+      advance a'.defs.banks it (nodeItem st a'.defs n k) = .ok a'.it ∧ a'.symCtx = stepCtx st a.symCtx n ∧
+      a'.stable = (a.stable && s) ∧ a'.reported = a.reported ++ r := by
+  rw [passNode_eq'] at h
+  split at h
+  · cases h
+  · rename_i it hv
+    split at h
+    · cases h
+    · rename_i defs stable reported hd
+      split at h
+      · cases h
+      · rename_i it' ha
+        injection h with h
+        subst h
+        exact ⟨it, stable, reported, hv, hd, ha, rfl, rfl, rfl⟩
+
+theorem visit_cong (st : Static) (a D : Defs) (e : StEq a D) (bk : List Bank) (it : IterSt) (n : AstNode) (k : Nat) :
+    visit bk it (nodeItem st D n k) = visit bk it (nodeItem st a n k) := by
+  unfold nodeItem
+  split
+  · rfl
+  · rfl
+  · rename_i kind _ r
+    cases kind with
+    | label => simp only [e.sv r]
+    | constant x => rfl
+  · rfl
+  · rfl
+  · rw [e.res]
+  · rw [e.aligns]
+  · rw [e.addrs]
+  · rfl
+
+/-- the own entry of the item of node `n`, element `k` -/
+def OwnSame (x y : Defs) (n : AstNode) (k : Nat) : Prop :=
+  match n with
+  | .instr _ (some ref) => y.instrs.getD ref default = x.instrs.getD ref default
+  | .data _ _ refs => y.datas.getD (refs.getD k 0) default = x.datas.getD (refs.getD k 0) default
+  | _ => True
+
+theorem nodeItem_own (st : Static) (x y : Defs) (e : StEq x y) (n : AstNode) (k : Nat) (h : OwnSame x y n k) :
+    nodeItem st y n k = nodeItem st x n k := by
+  unfold nodeItem
+  unfold OwnSame at h
+  split
+  · rfl
+  · rfl
+  · rename_i kind _ r
+    cases kind with
+    | label => simp only [e.sv r]
+    | constant x => rfl
+  · simp only at h; rw [h]
+  · simp only at h; rw [h]
+  · rw [e.res]
+  · rw [e.aligns]
+  · rw [e.addrs]
+  · rfl
+
+/-- facts of one stable step of any pass -/
+theorem passNode_facts (st : Static) (first last : Bool) (a a' : PassSt) (n : AstNode) (k : Nat)
+    (h : passNode st first last a n k = .ok a') (hs : a'.stable = true) (hok : NodeOK a.defs n) :
+    a.stable = true ∧ StEq a.defs a'.defs ∧
+      (∀ ref, (∀ src, n ≠ .instr src (some ref)) → a'.defs.instrs.getD ref default = a.defs.instrs.getD ref default) ∧
+      (∀ ref, (∀ sz es refs, n = .data sz es refs → refs.getD k 0 ≠ ref) → a'.defs.datas.getD ref default = a.defs.datas.getD ref default) := by
+  obtain ⟨it, s, r, hv, hd, ha, hsc, hst, hrep⟩ := passNode_inv st first last a a' n k h
+  rw [hst] at hs
+  simp only [Bool.and_eq_true] at hs
+  obtain ⟨hs0, hs1⟩ := hs
+  subst hs1
+  exact ⟨hs0, (dispatch_dich st a.defs a'.defs _ n k r hok hd).1,
+    fun ref hn => dispatch_other_instr st a.defs a'.defs _ n k true r hd ref hn,
+    fun ref hn => dispatch_other_data st a.defs a'.defs _ n k true r hd ref hn⟩
+
+theorem nodesOK_step (st : Static) (first last : Bool) (nodes : List AstNode) (hwf : NoClash nodes) (a a' : PassSt) (n : AstNode) (k : Nat)
+    (hn : n ∈ nodes) (h : passNode st first last a n k = .ok a') (hok : NodesOK a.defs nodes) : NodesOK a'.defs nodes := by
+  obtain ⟨h1, _⟩ := passNode_ok_step st first last a a' n k h
+  exact fun m hm => h1 m (hwf n hn m hm) (hok m hm)
+
+/-- facts of the element loop of one node in a stable pass -/
+theorem go_facts (st : Static) (first last : Bool) (nodes : List AstNode) (hwf : NoClash nodes) (n : AstNode) (hn : n ∈ nodes) :
+    ∀ (fuel k : Nat) (a a1 : PassSt), passNodes.go st first last n k fuel a = .ok a1 → a1.stable = true → NodesOK a.defs nodes →
+      a.stable = true ∧ StEq a.defs a1.defs ∧ NodesOK a1.defs nodes ∧
+      (∀ ref, (∀ src, n ≠ .instr src (some ref)) → a1.defs.instrs.getD ref default = a.defs.instrs.getD ref default) ∧
+      (∀ ref, (∀ sz es refs, n = .data sz es refs → ∀ k', k ≤ k' → k' < k + fuel → refs.getD k' 0 ≠ ref) →
+        a1.defs.datas.getD ref default = a.defs.datas.getD ref default) := by
+  intro fuel
+  induction fuel with
+  | zero =>
+    intro k a a1 h hs hok
+    simp only [passNodes.go] at h
+    injection h with h; subst h
+    exact ⟨hs, StEq.refl _, hok, fun _ _ => rfl, fun _ _ => rfl⟩
+  | succ f ih =>
+    intro k a a1 h hs hok
+    simp only [passNodes.go] at h
+    cases hp : passNode st first last a n k with
+    | error m => rw [hp] at h; cases h
+    | ok a' =>
+      rw [hp] at h
+      simp only at h
+      have hok' := nodesOK_step st first last nodes hwf a a' n k hn hp hok
+      obtain ⟨s2, e2, ok2, i2, d2⟩ := ih (k + 1) a' a1 h hs hok'
+      obtain ⟨s1, e1, i1, d1⟩ := passNode_facts st first last a a' n k hp s2 (hok n hn)
+      refine ⟨s1, e1.trans e2, ok2, fun ref hr => (i2 ref hr).trans (i1 ref hr), fun ref hr => ?_⟩
+      rw [d2 ref (fun sz es refs he k' h1 h2 => hr sz es refs he k' (by omega) (by omega))]
+      exact d1 ref (fun sz es refs he => hr sz es refs he k (Nat.le_refl k) (by omega))
+
+/-- facts of the rest of a stable pass -/
+theorem passNodes_facts (st : Static) (first last : Bool) (nodes : List AstNode) (hwf : NoClash nodes) :
+    ∀ (rest : List AstNode) (a a1 : PassSt), (∀ m ∈ rest, m ∈ nodes) → passNodes st first last rest a = .ok a1 → a1.stable = true →
+      NodesOK a.defs nodes →
+      a.stable = true ∧ StEq a.defs a1.defs ∧ NodesOK a1.defs nodes ∧
+      (∀ ref, (∀ src, AstNode.instr src (some ref) ∉ rest) → a1.defs.instrs.getD ref default = a.defs.instrs.getD ref default) ∧
+      (∀ ref, (∀ sz es refs, AstNode.data sz es refs ∈ rest → ∀ k', k' < es.length → refs.getD k' 0 ≠ ref) →
+        a1.defs.datas.getD ref default = a.defs.datas.getD ref default) := by
+  intro rest
+  induction rest with
+  | nil =>
+    intro a a1 _ h hs hok
+    simp only [passNodes] at h
+    injection h with h; subst h
+    exact ⟨hs, StEq.refl _, hok, fun _ _ => rfl, fun _ _ => rfl⟩
+  | cons n rest ih =>
+    intro a a1 hsub h hs hok
+    rw [passNodes_cons] at h
+    cases hg : passNodes.go st first last n 0 (nodeElems n) a with
+    | error e => rw [hg] at h; cases h
+    | ok a' =>
+      rw [hg] at h
+      simp only at h
+      have hn : n ∈ nodes := hsub n List.mem_cons_self
+      obtain ⟨s2, e2, ok2, i2, d2⟩ := ih a' a1 (fun m hm => hsub m (List.mem_cons_of_mem _ hm)) h hs
+        (go_facts st first last nodes hwf n hn (nodeElems n) 0 a a' hg (by
+          -- stability of the intermediate state follows from the rest
+          exact passNodes_stable_mono st first last rest a' a1 h hs) hok).2.2.1
+      have hs' : a'.stable = true := s2
+      obtain ⟨s1, e1, _, i1, d1⟩ := go_facts st first last nodes hwf n hn (nodeElems n) 0 a a' hg hs' hok
+      refine ⟨s1, e1.trans e2, ok2, fun ref hr => ?_, fun ref hr => ?_⟩
+      · rw [i2 ref (fun src hm => hr src (List.mem_cons_of_mem _ hm))]
+        exact i1 ref (fun src he => hr src (by rw [he]; exact List.mem_cons_self))
+      · rw [d2 ref (fun sz es refs hm => hr sz es refs (List.mem_cons_of_mem _ hm))]
+        refine d1 ref (fun sz es refs he k' _ h2 => hr sz es refs (by rw [he]; exact List.mem_cons_self) k' ?_)
+        rw [he] at h2
+        simpa [nodeElems] using h2
+
+/-- the step of the second pass on the final state `D` of a stable first pass -/
+theorem corner_passNode (st : Static) (first : Bool) (a a' : PassSt) (n : AstNode) (k : Nat) (D : Defs)
+    (h : passNode st first false a n k = .ok a') (hs : a'.stable = true) (hok : NodeOK a.defs n)
+    (e' : StEq a'.defs D) (hokD : NodeOK D n) (hown : nodeItem st D n k = nodeItem st a'.defs n k) :
+    passNode st false false ⟨D, a.it, a.symCtx, true, []⟩ n k = .ok ⟨D, a'.it, a'.symCtx, true, []⟩ := by
+  obtain ⟨it, s, r, hv, hd, ha, hsc, hst, hrep⟩ := passNode_inv st first false a a' n k h
+  have hs1 : s = true := by
+    rw [hst] at hs
+    simp only [Bool.and_eq_true] at hs
+    exact hs.2
+  subst hs1
+  obtain ⟨e1, hun⟩ := dispatch_dich st a.defs a'.defs _ n k r hok hd
+  have e : StEq a.defs D := e1.trans e'
+  rw [passNode_eq']
+  simp only
+  rw [e.banks, visit_cong st a.defs D e, hv]
+  simp only
+  have hq : r = [] := dispatch_quiet st _ _ _ rfl n k _ _ hd
+  subst hq
+  have hdD : dispatch st D ⟨false, false, stepCtx st a.symCtx n, it.bank, it.pos⟩ n k = .ok (D, true, []) := by
+    cases hm : markedA D n k with
+    | true => exact dispatch_markedS (fun _ => false) st D _ n k hm
+    | false =>
+      have hm' : markedA a'.defs n k = false := by
+        cases n with
+        | instr src rr =>
+          cases rr with
+          | none => rfl
+          | some ref =>
+            simp only [markedA, markedS] at hm ⊢
+            cases hx : (a'.defs.instrs.getD ref default).resolved with
+            | false => rfl
+            | true => rw [e'.im ref hx] at hm; cases hm
+        | data sz es refs =>
+          simp only [markedA, markedS] at hm ⊢
+          cases hx : (a'.defs.datas.getD (refs.getD k 0) default).resolved with
+          | false => rfl
+          | true => rw [e'.dm _ hx] at hm; cases hm
+        | symbol l nm kd ne rr =>
+          cases rr with
+          | none => cases kd <;> rfl
+          | some r0 =>
+            cases kd with
+            | label => rfl
+            | constant x =>
+              simp only [markedA, markedS, Bool.not_false, Bool.and_true] at hm ⊢
+              cases hx : (a'.defs.sym r0).resolved with
+              | false => rfl
+              | true => rw [e'.sm r0 hx] at hm; cases hm
+        | _ => rfl
+      obtain ⟨hda, hnf⟩ := hun hm'
+      exact dispatch_cong st a.defs D e _ rfl n k [] hm hokD hnf
+  rw [hdD]
+  simp only
+  rw [hown, e'.banks, ha, hsc]
+  rfl
+
 end Casm
